@@ -125,6 +125,17 @@ def linecol_mismatches(text, entries):
     return out
 
 
+def long_inputs():
+    """inputs around typical buffer sizes, filled with two-byte characters, a statement at every byte alignment"""
+    out = []
+    for size in (1024, 4096, 8192):
+        for shift in range(0, 4):
+            filler = "// " + "\u00e9" * ((size - 40) // 2) + "\n"
+            text = ("x" * shift) + "\n" + filler + "fn f() { test_macro!(\"a\"); }\n" + filler + "test_macro!(k = 1; \"b\");\n"
+            out.append(text)
+    return out
+
+
 def run(repo="/repo", verbose=False):
     import native
     src = model.Sources(repo)
@@ -132,8 +143,17 @@ def run(repo="/repo", verbose=False):
     n = 0
     diffs = []
     linecol = []
+    panics = []
     skipped = 0
     try:
+        for text in long_inputs():
+            for structured in (False, True):
+                real = runner.find(text, structured=structured, macros=TEST_MACROS)
+                n += 1
+                if "panic" in real:
+                    panics.append((text[:60] + "...(%d bytes)" % len(text.encode()), structured, real["panic"]))
+                elif len(real["entries"]) != 2:
+                    diffs.append((text[:60] + "...(%d bytes)" % len(text.encode()), structured, ("LONG", len(real["entries"]), 2)))
         for text in corpus(repo):
             for structured in (False, True):
                 res = compare(src, runner, text, structured)
@@ -141,6 +161,9 @@ def run(repo="/repo", verbose=False):
                     skipped += 1
                     continue
                 n += 1
+                if res[0] == "panic":
+                    panics.append((text, structured, res[1]))
+                    continue
                 if res[0] == "LINECOL":
                     linecol.append((text, structured, res[1]))
                 elif res[0] != "ok":
@@ -150,6 +173,7 @@ def run(repo="/repo", verbose=False):
     finally:
         runner.close()
     run.linecol = linecol
+    run.panics = panics
     return n, skipped, diffs
 
 
